@@ -221,7 +221,7 @@ package lexer
 //@   modifies *p
 //@   ensures p.Offset == old(p.Offset) + len(span) && p.Filename == old(p.Filename)
 //@   ensures @posOK old(posOK(in, *p)) && old(p.Offset) + len(span) <= len(in) && span == in[old(p.Offset):old(p.Offset)+len(span)]
-//@        && cutok(in[lineStart(in, old(p.Offset)):old(p.Offset)], span) ==> posOK(in, *p)  [C04 C06]
+//@        && cutok(in[lineStart(in, old(p.Offset)):old(p.Offset)], span) ==> posOK(in, *p)  [C04 C06 C11]
 //@   use subSplit(in, 0, p.Offset, p.Offset + len(span)) at entry
 //@   use nlcCat(in[:p.Offset], span) at entry
 //@   use nlFacts(span) at entry
